@@ -124,7 +124,7 @@ func autoPatterns(vars []Term, body string) [][]Term {
 		isUF := strings.HasPrefix(head, "rd!") || strings.HasPrefix(head, "g!") || head == "select"
 		if isUF {
 			ok, vs := clean(n)
-			if ok && len(vs) > 0 && !seen[n.text] && !strings.Contains(n.text, "(ite ") {
+			if ok && len(vs) > 0 && !seen[n.text] && !strings.Contains(n.text, "(ite ") && !hasForeignBound(n, isVar) {
 				// select terms only when the array is not itself a bound var
 				seen[n.text] = true
 				cands = append(cands, cand{n.text, vs})
@@ -184,4 +184,18 @@ func autoPatterns(vars []Term, body string) [][]Term {
 		}
 	}
 	return [][]Term{multi}
+}
+
+// hasForeignBound reports whether n mentions a bound variable (name containing '?') that is not
+// one of the quantifier's own variables (i.e. it belongs to a nested quantifier).
+func hasForeignBound(n *sexp, own map[string]bool) bool {
+	if n.list == nil {
+		return strings.Contains(n.atom, "?") && !own[n.atom]
+	}
+	for _, c := range n.list {
+		if hasForeignBound(c, own) {
+			return true
+		}
+	}
+	return false
 }
